@@ -1918,6 +1918,8 @@ package go_clipper2
 //@   loop 2 invariant [walk] 1 <= i && highI == len(path) - 1 && len(path) >= 2 && validLoc(loc) && rectOK(r)
 //@   loop 2 entry [no-leading-segment-is-skipped-the-walk-starts-at-the-second-vertex] i == 1
 //@   loop 2 entry [a-line-that-starts-inside-has-an-output-path-open] loc == Inside ==> len(r.results) >= 1
+//@   assert after call:getIntersection#0 [the-crossing-nearest-the-new-vertex-is-searched-from-that-vertex-back-to-the-previous-one] same(arg0, r.rectPath) && arg1 == path[i] && arg2 == old(path[i-1])
+//@   assert after call:getIntersection#1 [the-entry-point-of-a-segment-that-passes-through-is-searched-from-the-previous-vertex-forward-starting-at-the-side-it-left] same(arg0, r.rectPath) && arg1 == prevPt && arg2 == path[i] && prevPt == path[i-1]
 
 //@ func RectClip64.addCorner
 //@   props C06 C03
@@ -1949,6 +1951,11 @@ package go_clipper2
 //@   loop 2.2 invariant [corner-walk] validLoc(prev) && validLoc(loc) && validLoc(crossingLoc) && rectOK(r) && 0 <= i && i <= highI && highI == len(path) - 1
 //@   loop 3 invariant [corners] 0 <= j && j <= 4 && rectOK(r)
 //@   loop 4 invariant [start-locs] rectOK(r)
+//@   assert after call:getIntersection#0 [the-crossing-nearest-the-new-vertex-is-searched-from-that-vertex-back-to-the-previous-one-of-the-ring] same(arg0, r.rectPath) && arg1 == path[i] && arg2 == prevPt && prevPt == path[ite(i == 0, highI, i-1)]
+//@   assert after call:getIntersection#1 [the-entry-point-of-an-edge-that-passes-through-is-searched-from-the-previous-vertex-forward-starting-at-the-side-it-left] same(arg0, r.rectPath) && arg1 == prevPt && arg2 == path[i] && old(loc) == prev
+//@   assert after call:isClockwise#0 [the-turn-round-the-rectangle-is-judged-on-the-edge-just-walked-from-the-side-left-to-the-side-reached] arg0 == old(prev) && arg1 == loc && arg2 == prevPt && arg3 == path[i] && arg4 == r.mp
+//@   assert after call:isClockwise#1 [the-turn-round-the-rectangle-is-judged-on-the-edge-just-walked-from-the-side-left-to-the-side-reached] arg0 == old(prev) && arg1 == loc && arg2 == prevPt && arg3 == path[i] && arg4 == r.mp
+//@   assert after call:isClockwise#2 [the-turn-to-the-crossing-side-is-judged-on-the-edge-just-walked] arg0 == old(prev) && arg1 == crossingLoc && arg2 == prevPt && arg3 == path[i] && arg4 == r.mp
 
 // ---------------------------------------------------------------------------------
 // Path utilities of the public API: total, element-wise specifications (C03; C13 for translation)
